@@ -67,6 +67,9 @@ func (b *Builder) Build() (*DFA, error) {
 	// Check if the NFA contains EndLine ($) assertions
 	hasEndLine := b.checkHasEndLine()
 
+	// Check if the NFA contains any look-around assertion at all
+	hasLook := b.checkHasLook()
+
 	// Check if the pattern is always anchored (has ^ prefix)
 	isAlwaysAnchored := b.nfa.IsAlwaysAnchored()
 
@@ -84,6 +87,7 @@ func (b *Builder) Build() (*DFA, error) {
 		unanchoredStart:  b.nfa.StartUnanchored(),
 		hasWordBoundary:  hasWordBoundary,
 		hasEndLine:       hasEndLine,
+		hasLook:          hasLook,
 		isAlwaysAnchored: isAlwaysAnchored,
 		startByteMap:     startByteMap,
 	}
@@ -740,6 +744,17 @@ func (b *Builder) checkHasWordBoundary() bool {
 // checkHasEndLine checks if the NFA contains EndLine ($) look assertions.
 // When true, determinize performs look-ahead re-computation on '\n' bytes.
 // Computed once at DFA build time for O(1) check in hot loop.
+// checkHasLook reports whether the NFA contains any look-around assertion.
+func (b *Builder) checkHasLook() bool {
+	numStates := b.nfa.States()
+	for i := nfa.StateID(0); int(i) < numStates; i++ {
+		if state := b.nfa.State(i); state != nil && state.Kind() == nfa.StateLook {
+			return true
+		}
+	}
+	return false
+}
+
 func (b *Builder) checkHasEndLine() bool {
 	numStates := b.nfa.States()
 	for i := nfa.StateID(0); int(i) < numStates; i++ {
